@@ -60,6 +60,115 @@ def build_corpus(tier, first=0):
     raise M.HarnessError("batch build keeps failing")
 
 
+COMP_SKELETON_TOML = """[workspace]
+resolver = "2"
+members = ["pgc", "msbincomp"]
+
+[profile.dev]
+debug = false
+incremental = false
+
+[profile.dev.package.eqlog-runtime]
+opt-level = 2
+[profile.dev.package.modelsim-sim]
+opt-level = 2
+[profile.dev.package.lang]
+opt-level = 2
+[profile.dev.package.simcore]
+opt-level = 2
+"""
+
+
+def build_comp_corpus(tier):
+    """C19: the first programs of the corpus built through the component path of the real driver
+    (real rayon, real rustc per rule component) and linked into a second simulator binary."""
+    M.cargo_build(["vgen"], "build-vgen.log")
+    out = os.path.join(M.WORK, "compcorpus-%s" % tier)
+    count = 12 if tier == "quick" else 40
+    env = M.cargo_env()
+    env["CARGO_TARGET_DIR"] = MS_TARGET
+    # skeleton first, so that cargo can tell us which eqlog-runtime rlib this workspace links
+    if not os.path.exists(os.path.join(out, "pgc", "Cargo.toml")):
+        os.makedirs(os.path.join(out, "pgc", "src"), exist_ok=True)
+        os.makedirs(os.path.join(out, "msbincomp", "src"), exist_ok=True)
+        os.makedirs(os.path.join(out, ".cargo"), exist_ok=True)
+        open(os.path.join(out, "Cargo.toml"), "w").write(COMP_SKELETON_TOML)
+        open(os.path.join(out, ".cargo", "config.toml"), "w").write('[net]\noffline = true\n\n[build]\nrustflags = ["--cfg", "eqlog_verif"]\n')
+        shutil.copy(os.path.join(M.VERIF, "Cargo.lock"), os.path.join(out, "Cargo.lock"))
+        open(os.path.join(out, "pgc", "Cargo.toml"), "w").write(
+            '[package]\nname = "pgc"\nversion = "0.1.0"\nedition = "2024"\n\n[dependencies]\neqlog-runtime = { path = "/repo/eqlog-runtime" }\nmdrv = { path = "%s/modelsim/mdrv" }\n' % M.VERIF)
+        open(os.path.join(out, "pgc", "src", "lib.rs"), "w").write("pub fn entries() -> Vec<mdrv::Entry> { Vec::new() }\n")
+        open(os.path.join(out, "msbincomp", "Cargo.toml"), "w").write(
+            '[package]\nname = "msbincomp"\nversion = "0.1.0"\nedition = "2021"\n\n[dependencies]\nmdrv = { path = "%s/modelsim/mdrv" }\nmodelsim-sim = { path = "%s/modelsim/sim" }\npgc = { path = "../pgc" }\n' % (M.VERIF, M.VERIF))
+        open(os.path.join(out, "msbincomp", "src", "main.rs"), "w").write("fn main() { modelsim_sim::main_with(pgc::entries()); }\n")
+    proc = subprocess.run(["cargo", "build", "--offline", "-p", "eqlog-runtime", "--message-format=json"], cwd=out, env=env,
+                          capture_output=True, text=True)
+    if proc.returncode != 0:
+        raise M.HarnessError("cannot build eqlog-runtime for the component corpus: %s" % proc.stderr[-2000:])
+    rlib = None
+    for line in proc.stdout.splitlines():
+        try:
+            msg = json.loads(line)
+        except ValueError:
+            continue
+        if msg.get("reason") == "compiler-artifact" and msg.get("target", {}).get("name") in ("eqlog_runtime", "eqlog-runtime") \
+                and "custom-build" not in msg.get("target", {}).get("kind", []):
+            for f in msg.get("filenames", []):
+                if f.endswith(".rlib"):
+                    rlib = f
+    if rlib is None:
+        raise M.HarnessError("cargo did not report the eqlog-runtime rlib")
+    t0 = time.time()
+    proc = subprocess.run([VGEN, "compcorpus", "--seed", str(GEN_SEED), "--count", str(count), "--out", out, "--runtime-rlib", rlib],
+                          capture_output=True, text=True, env=M.cargo_env())
+    if proc.returncode != 0:
+        raise M.HarnessError("vgen compcorpus failed: %s %s" % (proc.stdout[-1500:], proc.stderr[-1500:]))
+    summary = [l for l in proc.stdout.splitlines() if l.startswith("compcorpus:")]
+    logp = os.path.join(M.WORK, "build-compbatch-%s.log" % tier)
+    with open(logp, "w") as f:
+        rc = subprocess.call(["cargo", "build", "--offline", "-p", "msbincomp"], cwd=out, env=env, stdout=f, stderr=subprocess.STDOUT)
+    if rc != 0:
+        raise M.HarnessError("component batch build failed:\n" + "\n".join(open(logp, errors="replace").read().splitlines()[-40:]))
+    M.log("[build] component corpus %s (%s) ok in %.1fs" % (tier, summary[-1] if summary else "?", time.time() - t0))
+    return os.path.join(MS_TARGET, "debug", "msbincomp")
+
+
+def run_c19_dynamic(tier, seed):
+    """Runs the same seeded histories against the module build and the component build of the
+    same programs and compares the transcript hashes."""
+    binary, _ = build_corpus(tier)
+    comp = build_comp_corpus(tier)
+    outs = {}
+    for label, b in (("module", binary), ("component", comp)):
+        outdir = os.path.join(M.WORK, "C19-%s-%s" % (tier, label))
+        res = M.run_shards(b, "C19", tier, seed, outdir)
+        hashes = {}
+        for i in range(M.NSHARDS):
+            hp = os.path.join(outdir, "shard-%d.hashes.json" % i)
+            if os.path.exists(hp):
+                hashes.update(json.load(open(hp)))
+        outs[label] = (res, outdir, hashes)
+    mh, ch = outs["module"][2], outs["component"][2]
+    common = sorted(set(mh) & set(ch))
+    if not common:
+        raise M.HarnessError("C19: the two builds have no history in common")
+    diffs = [k for k in common if mh[k] != ch[k]]
+    viol = []
+    os.makedirs(M.REPLAYS, exist_ok=True)
+    for n, k in enumerate(diffs[:3]):
+        path = os.path.join(M.REPLAYS, "C19-dynamic-%d.json" % n)
+        v = {"engine": "modelsim", "property": "C19", "class": "builds-disagree",
+             "message": "history %s gives transcript %s on the module build and %s on the component build" % (k, mh[k], ch[k]),
+             "seed": seed, "case": {"kind": "c19-dynamic", "history": k, "module": mh[k], "component": ch[k]},
+             "replay": "re-run ./check C19 %s (both binaries are rebuilt and the history is regenerated from the seed)" % tier,
+             "no_replay": True, "replay_path": path, "log_hash": ""}
+        json.dump(v, open(path, "w"), indent=1)
+        viol.append(v)
+    cov = {"dynamic_half": {"programs_in_both_builds": len(set(k.split("#")[0] for k in common)), "histories_compared": len(common),
+                            "histories_with_differences": len(diffs)}}
+    return outs["component"][0], outs["component"][1], viol, cov
+
+
 def shard_env(i, prop):
     env = dict(os.environ)
     if prop == "C20":
@@ -69,8 +178,13 @@ def shard_env(i, prop):
 
 
 def run(prop, tier, seed, spec, t0):
+    results, outdir, binary, extra_cov, extra_viol = run_shards(prop, tier, seed)
+    return M.finish(prop, tier, seed, spec, results, outdir, binary, t0, extra_cov=extra_cov, extra_violations=extra_viol)
+
+
+def run_shards(prop, tier, seed, suffix=""):
     binary, excluded = build_corpus(tier)
-    outdir = os.path.join(M.WORK, "%s-%s" % (prop, tier))
+    outdir = os.path.join(M.WORK, "%s-%s%s" % (prop, tier, suffix))
     if os.path.isdir(outdir):
         shutil.rmtree(outdir)
     os.makedirs(outdir)
@@ -128,7 +242,7 @@ def run(prop, tier, seed, spec, t0):
                     "no_replay": True, "replay_path": path, "log_hash": ""}
             json.dump(viol, open(path, "w"), indent=1)
             extra_viol.append(viol)
-    return M.finish(prop, tier, seed, spec, results, outdir, binary, t0, extra_cov=extra_cov, extra_violations=extra_viol)
+    return results, outdir, binary, extra_cov, extra_viol
 
 
 def replay(path, v):
